@@ -118,6 +118,34 @@ func main() {
 				}
 			}
 		}
+		// every refusal status, registered or not, as the backend's answer for one resource of
+		// a multiget (alone, after and before a found one), for a GET and for a PUT
+		{
+			codes := append([]int64{}, failCodes...)
+			if hx.Tier() == "thorough" {
+				for c := int64(300); c <= 999; c++ {
+					if c < 600 || c%37 == 0 {
+						codes = append(codes, c)
+					}
+				}
+			}
+			okH := "/u/cal/c/ok.ics"
+			okOut := hrefOut{okH, &Outcome{Kind: "found", Obj: &Obj{Path: okH, ETag: "t", Sec: 1700000000, Data: data}}}
+			for _, c := range codes {
+				for _, kind := range []string{"http", "wrap"} {
+					f := &Outcome{Kind: kind, Code: c}
+					badH := fmt.Sprintf("/u/cal/c/refused %d.ics", c)
+					bad := hrefOut{badH, f}
+					jobs <- func() string { return runMultiget(card, "/u/", []string{badH}, []hrefOut{bad}) }
+					jobs <- func() string { return runMultiget(card, "/u/", []string{okH, badH}, []hrefOut{okOut, bad}) }
+					if kind == "http" {
+						jobs <- func() string { return runMultiget(card, "/u/", []string{badH, okH, badH}, []hrefOut{okOut, bad}) }
+						jobs <- func() string { return runGet(card, badH, f) }
+						jobs <- func() string { return runPut(card, badH, data, f) }
+					}
+				}
+			}
+		}
 		var vec func(prefix []int)
 		vec = func(prefix []int) {
 			if len(prefix) > 0 {
